@@ -238,9 +238,36 @@ func mutateNode(n *Spec, m int) bool {
 		}
 	case 7: // discriminator
 		if n.Kind == KOneOfStr || n.Kind == KOneOfInt {
-			if !n.Inlined {
+			if !n.Inlined || len(n.Members) == 0 {
 				n.Discriminator += "x"
 				return true
+			}
+			// inlined: the discriminator is a property of every member; another property that every member declares with
+			// the same type can take its place
+			var cur *Prop
+			if o := objectOf(n.Members[0].Type); o != nil {
+				cur = o.Prop(n.Discriminator)
+			}
+			if cur == nil {
+				return false
+			}
+			if o := objectOf(n.Members[0].Type); o != nil {
+				for _, cand := range o.Props {
+					if cand.Name == n.Discriminator || cand.Type.Kind != cur.Type.Kind {
+						continue
+					}
+					all := true
+					for _, m := range n.Members {
+						mo := objectOf(m.Type)
+						if mo == nil || mo.Prop(cand.Name) == nil || mo.Prop(cand.Name).Type.Kind != cur.Type.Kind {
+							all = false
+						}
+					}
+					if all {
+						n.Discriminator = cand.Name
+						return true
+					}
+				}
 			}
 		}
 	case 8: // member removed
